@@ -1,25 +1,122 @@
 import Mutagen.Proofs.Reconcile
+import Mutagen.Proofs.Fixpoint6
 /-!
 # C04 — a fully applied cycle is a fixpoint and two-way endpoints converge
 
 Theorems about the executable model `Mutagen.Model.Reconcile` /
 `Mutagen.Model.Entry` (tied to `core.Reconcile` + `core.Apply` by the C04
 correspondence stream `cycle2`: plan, apply exactly, reconcile again, all four
-modes). Helper lemmas live in `Mutagen.Proofs.Reconcile`.
+modes). Helper lemmas live in `Mutagen.Proofs.Reconcile` and
+`Mutagen.Proofs.Fixpoint1` … `Fixpoint6`.
 
-The full fixpoint theorem (below, TODO) is the largest case analysis of the
-project; what is proved here is its base case — the converged state is stable
-— and the ingredient that makes "apply the plan exactly" well defined:
-applying changes at pairwise incomparable paths records every one of them.
+"Applying a cycle exactly" (ideal transition results) is, as in
+`controller.go:synchronize`:
+  `A' = Apply(A, ancestorChanges ++ results(αChanges) ++ results(βChanges))`
+with `results(c) = {Path: c.Path, New: c.New}` (`idealResult`),
+  `α' = Apply(α, αChanges)`,  `β' = Apply(β, βChanges)`.
+
+Hypotheses: valid endpoint snapshots (`Valid`, what `Snapshot.EnsureValid`
+enforces) without phantom directories (reified before reconciliation). No
+hypothesis on the ancestor is needed.
 -/
 namespace Mutagen.Properties.C04
 open Mutagen.Model
 
+/-- **A fully applied cycle is a fixpoint** (every mode): the three `Apply`s of
+a fully applied cycle succeed, and the next reconciliation over the resulting
+trees plans no ancestor change, no alpha change and no beta change, and reports
+conflicts rooted at exactly the same paths as the first one. -/
+theorem reconcile_fixpoint (mode : Mode) (A alpha beta : Option Entry)
+    (hal : Valid alpha) (hbe : Valid beta) (hpα : onoPhantom alpha = true) (hpβ : onoPhantom beta = true) :
+    ∃ A' α' β',
+      apply A ((Reconcile A alpha beta mode).anc ++
+        ((Reconcile A alpha beta mode).alpha.map idealResult ++
+          (Reconcile A alpha beta mode).beta.map idealResult)) = .ok A' ∧
+      apply alpha (Reconcile A alpha beta mode).alpha = .ok α' ∧
+      apply beta (Reconcile A alpha beta mode).beta = .ok β' ∧
+      (Reconcile A' α' β' mode).anc = [] ∧
+      (Reconcile A' α' β' mode).alpha = [] ∧
+      (Reconcile A' α' β' mode).beta = [] ∧
+      ∀ p, p ∈ (Reconcile A' α' β' mode).conflicts.map (·.root) ↔
+           p ∈ (Reconcile A alpha beta mode).conflicts.map (·.root) := by
+  obtain ⟨A', hA⟩ := ancestor_update_succeeds mode A alpha beta
+    ((Reconcile A alpha beta mode).alpha.map idealResult) ((Reconcile A alpha beta mode).beta.map idealResult)
+    (by simp [idealResult, Function.comp_def]) (by simp [idealResult, Function.comp_def])
+  obtain ⟨⟨α', hα⟩, ⟨β', hβ⟩⟩ := plan_application_succeeds mode A alpha beta
+  obtain ⟨h1, h2, h3, h4⟩ := reconcile_fixpoint_root mode A alpha beta hal hbe hpα hpβ A' α' β' hA hα hβ
+  exact ⟨A', α', β', hA, hα, hβ, h1, h2, h3, h4⟩
+
+/-- The same for *whatever* trees the three `Apply`s return (they are functions,
+so these are the trees of `reconcile_fixpoint`). -/
+theorem reconcile_fixpoint_of_applied (mode : Mode) (A alpha beta : Option Entry)
+    (hal : Valid alpha) (hbe : Valid beta) (hpα : onoPhantom alpha = true) (hpβ : onoPhantom beta = true)
+    (A' α' β' : Option Entry)
+    (hA : apply A ((Reconcile A alpha beta mode).anc ++
+        ((Reconcile A alpha beta mode).alpha.map idealResult ++
+          (Reconcile A alpha beta mode).beta.map idealResult)) = .ok A')
+    (hα : apply alpha (Reconcile A alpha beta mode).alpha = .ok α')
+    (hβ : apply beta (Reconcile A alpha beta mode).beta = .ok β') :
+    (Reconcile A' α' β' mode).anc = [] ∧ (Reconcile A' α' β' mode).alpha = [] ∧
+    (Reconcile A' α' β' mode).beta = [] ∧
+    ((Reconcile A' α' β' mode).conflicts.map (·.root)).Perm
+      ((Reconcile A alpha beta mode).conflicts.map (·.root)) := by
+  obtain ⟨h1, h2, h3, h4⟩ := reconcile_fixpoint_root mode A alpha beta hal hbe hpα hpβ A' α' β' hA hα hβ
+  refine ⟨h1, h2, h3, ?_⟩
+  have nd : ∀ (X Y Z : Option Entry), ((Reconcile X Y Z mode).conflicts.map (·.root)).Nodup := by
+    intro X Y Z
+    have := (reconcile_actions mode [] X Y Z).2
+    simp only [Plan.actionPaths, List.pairwise_append] at this
+    exact this.2.1.imp (fun {a b} (h : incomparable a b) (heq : a = b) => h.1 (heq ▸ List.prefix_refl a))
+  exact (List.perm_ext_iff_of_nodup (nd A' α' β') (nd A alpha beta)).mpr h4
+
+/-- **Two-way endpoints converge**: in both two-way modes, after a fully applied
+cycle, at every path that is not at or below a conflict root and not at or
+below an untracked / problematic entry of either endpoint, both endpoints and
+the new ancestor record the same entry (kind, digest, executable bit, target). -/
+theorem twoWay_converges (mode : Mode) (hm : mode = .twoWaySafe ∨ mode = .twoWayResolved)
+    (A alpha beta : Option Entry)
+    (hal : Valid alpha) (hbe : Valid beta) (hpα : onoPhantom alpha = true) (hpβ : onoPhantom beta = true)
+    (A' α' β' : Option Entry)
+    (hA : apply A ((Reconcile A alpha beta mode).anc ++
+        ((Reconcile A alpha beta mode).alpha.map idealResult ++
+          (Reconcile A alpha beta mode).beta.map idealResult)) = .ok A')
+    (hα : apply alpha (Reconcile A alpha beta mode).alpha = .ok α')
+    (hβ : apply beta (Reconcile A alpha beta mode).beta = .ok β') :
+    ∀ q, (∀ c ∈ (Reconcile A alpha beta mode).conflicts, ¬ c.root <+: q) →
+      NoUnsyncAlong α' q → NoUnsyncAlong β' q →
+      pget α' q = pget A' q ∧ pget β' q = pget A' q := by
+  obtain ⟨h1, h2, h3, h4⟩ := reconcile_fixpoint_root mode A alpha beta hal hbe hpα hpβ A' α' β' hA hα hβ
+  intro q hq hnα hnβ
+  refine quiet_converged mode hm [] A' α' β' h1 h2 h3 q ?_ hnα hnβ
+  intro c₂ hc₂ hpre
+  have : c₂.root ∈ (Reconcile A alpha beta mode).conflicts.map (·.root) :=
+    (h4 c₂.root).mp (List.mem_map.mpr ⟨c₂, hc₂, rfl⟩)
+  obtain ⟨c, hc, hroot⟩ := List.mem_map.mp this
+  exact hq c hc (by rw [hroot]; simpa using hpre)
+
+/-- In the form "the synchronizable entries coincide": where the resulting
+endpoint trees are valid, the entries of their synchronizable parts at such a
+path equal the new ancestor's. -/
+theorem twoWay_converges_sync (mode : Mode) (hm : mode = .twoWaySafe ∨ mode = .twoWayResolved)
+    (A alpha beta : Option Entry)
+    (hal : Valid alpha) (hbe : Valid beta) (hpα : onoPhantom alpha = true) (hpβ : onoPhantom beta = true)
+    (A' α' β' : Option Entry)
+    (hA : apply A ((Reconcile A alpha beta mode).anc ++
+        ((Reconcile A alpha beta mode).alpha.map idealResult ++
+          (Reconcile A alpha beta mode).beta.map idealResult)) = .ok A')
+    (hα : apply alpha (Reconcile A alpha beta mode).alpha = .ok α')
+    (hβ : apply beta (Reconcile A alpha beta mode).beta = .ok β')
+    (hvα : Valid α') (hvβ : Valid β') :
+    ∀ q, (∀ c ∈ (Reconcile A alpha beta mode).conflicts, ¬ c.root <+: q) →
+      NoUnsyncAlong α' q → NoUnsyncAlong β' q →
+      pget (osync α') q = pget A' q ∧ pget (osync β') q = pget A' q := by
+  intro q hq hnα hnβ
+  obtain ⟨e1, e2⟩ := twoWay_converges mode hm A alpha beta hal hbe hpα hpβ A' α' β' hA hα hβ q hq hnα hnβ
+  exact ⟨(pget_osync_of_noUnsync hvα hnα).trans e1, (pget_osync_of_noUnsync hvβ hnβ).trans e2⟩
+
 /-- **The converged state is a fixpoint** (every mode): when both endpoints
 hold exactly the last-synchronized, fully synchronizable tree, reconciliation
-plans nothing — no endpoint change, no ancestor change, no conflict. This is
-the state `twoWay_converges` (TODO below) says a fully applied conflict-free
-two-way cycle reaches. -/
+plans nothing — no endpoint change, no ancestor change, no conflict. -/
 theorem converged_state_is_fixpoint_partial (mode : Mode) (t : Option Entry) (h : oallSync t = true) :
     Reconcile t t t mode = {} :=
   reconcile_synced mode [] t t t rfl rfl h
@@ -42,19 +139,13 @@ theorem plan_application_faithful (mode : Mode) (A alpha beta : Option Entry) :
   · intro β' h
     exact apply_faithful_last _ beta β' h (List.pairwise_map.mp hinc.1.2.1)
 
-/-! Non-vacuity: a fully synchronizable tree exists. -/
-example : oallSync (some exampleTree2) = true := by decide
-
--- TODO theorem reconcile_fixpoint (full strength, DESIGN §8 C04): with
---   `(ac, αc, βc, cf) = Reconcile A α β m`, `A' = apply A (ac ++ results αc ++ results βc)`,
---   `α' = apply α αc`, `β' = apply β βc` (ideal results = `New`):
---   `Reconcile A' α' β' m = ([], [], [], cf')` with `cf'` rooted at the same paths as `cf`.
---   Needs (i) success of the three `apply`s (parents of ancestor changes exist in parent-before-child
---   order), (ii) a path-wise description of `A'`, `α'`, `β'` (available from `applyChange_ok_spec` /
---   `plan_application_faithful`), and (iii) the composition of every handler branch with itself.
---   Checked on the implementation by the C04 oracle `not-a-fixpoint` (≈7·10⁴ cases per quick run, 0 failures).
--- TODO theorem twoWay_converges (DESIGN §8 C04): in both two-way modes, for every path not at/below a
---   conflict root and not untracked/problematic on a side, `pget α' q = pget β' q = pget A' q`.
---   Checked on the implementation by the C04 oracle `not-converged`.
+/-! Non-vacuity: valid phantom-free endpoint trees with unsynchronizable
+content exist, and a plan with a change exists (`example_modification_propagates`),
+so the fixpoint statement is about a non-trivial cycle. -/
+example : Valid (some exampleTree1) ∧ onoPhantom (some exampleTree1) = true ∧
+    Valid (some exampleTree2) ∧ onoPhantom (some exampleTree2) = true := by
+  unfold Valid; decide
+example : (Reconcile (some exampleFile1) (some exampleFile2) (some exampleFile1) .twoWaySafe).beta ≠ [] := by
+  rw [example_modification_propagates]; simp
 
 end Mutagen.Properties.C04
